@@ -39,6 +39,9 @@ static gf_t* find(fiber_context_t* c) {
     if (gfs[i].ctx == c) return &gfs[i];
   return 0;
 }
+static void sethot(gf_t* g) {
+  if (g && g->stackidx >= 0) fmc_fstacks[g->stackidx].hot = g->pending > 0 || g->state == G_RUNNING;
+}
 static gf_t* newgf(fiber_context_t* c) {
   if (ngf >= MAXGF) fmc_finish(V_ENGINE, "too many fibers for the ghost table");
   gf_t* g = &gfs[ngf];
@@ -97,6 +100,8 @@ int __wrap_fiber_context_init(fiber_context_t* ctx, size_t size, fiber_run_funct
     s->running_on = -1;
     s->alive = 1;
     s->ctx = ctx;
+    s->hot = 0;
+    s->id = g->id;
     g->stackidx = fmc_nfstacks++;
   }
   return r;
@@ -161,6 +166,8 @@ void __wrap_fiber_context_swap(fiber_context_t* from, fiber_context_t* to) {
     if (gto->stackidx >= 0) fmc_fstacks[gto->stackidx].running_on = k;
   }
   if (gfrom && gfrom->stackidx >= 0) fmc_fstacks[gfrom->stackidx].running_on = k;
+  sethot(gfrom);
+  sethot(gto);
   last_from[k] = from;
   fmc_cur_ctx[k] = to;
   thread_swaps[k]++;
@@ -194,6 +201,7 @@ void __wrap_fiber_scheduler_schedule(fiber_scheduler_t* s, fiber_t* f) {
       g->pending++;
       if ((fmc_omask & FMC_O_RUNMAP) && g->state == G_DESTROYED) fmc_fail("runmap: destroyed fiber #%d made runnable", g->id);
       if ((fmc_omask & FMC_O_WAKES) && g->pending > 1) fmc_fail("wakes: fiber #%d made runnable twice without running in between", g->id);
+      sethot(g);
     }
   }
   __real_fiber_scheduler_schedule(s, f);
